@@ -3,6 +3,7 @@ package fuse
 import (
 	"context"
 	"fmt"
+	"io"
 	"math"
 	"os"
 	"sync"
@@ -494,6 +495,10 @@ func (fs *fsMutable) ReadFile(
 
 	fs.backingFiles[op.Inode] = &file
 	op.BytesRead, err = file.ReadAt(op.Dst, op.Offset)
+	if err == io.EOF {
+		// a short read at the end of the file is not an error for fuse
+		err = nil
+	}
 	if err != nil {
 		return jfuse.EIO
 	}
